@@ -314,10 +314,42 @@ func c13Pipeline(c *fw.Ctx, base types.EnvType, r *rand.Rand, pool, fns []c13Ite
 			name := colmodel.Names[r.Intn(35)] // collection builtins (predicates are covered by the tuples)
 			ars := c13Arity[name]
 			ar := ars[r.Intn(len(ars))]
+			// a third of the stages extend an earlier sequence result once more (two derivations from one parent)
+			var again *bound
+			if len(vals) > 0 && r.Intn(3) == 0 {
+				var seqs []int
+				for vi, b := range vals {
+					if b.model.K == canon.Vec || b.model.K == canon.List {
+						seqs = append(seqs, vi)
+					}
+				}
+				if len(seqs) > 0 {
+					again = &vals[seqs[r.Intn(len(seqs))]]
+					name = []string{"conj", "conj", "concat", "cons", "assoc"}[r.Intn(5)]
+					if name == "assoc" && (again.model.K != canon.Vec || len(again.model.L) == 0) {
+						name = "conj"
+					}
+					ar = map[string]int{"conj": 2, "concat": 2, "cons": 2, "assoc": 3}[name]
+				}
+			}
 			exprs := make([]*canon.Node, ar)
 			models := make([]*canon.Node, ar)
 			fpos, hasFn := c13FnPos[name]
 			for p := 0; p < ar; p++ {
+				if again != nil {
+					tag := canon.In(100 + s)
+					switch {
+					case (name == "cons" && p == 1) || (name != "cons" && p == 0):
+						exprs[p], models[p] = canon.Sy(again.name), again.model
+					case name == "concat":
+						exprs[p], models[p] = canon.Ve(tag), canon.Ve(tag)
+					case name == "assoc" && p == 1:
+						exprs[p], models[p] = canon.In(0), canon.In(0)
+					default:
+						exprs[p], models[p] = tag, tag
+					}
+					continue
+				}
 				switch {
 				case hasFn && p == fpos:
 					f := fns[r.Intn(len(fns))]
@@ -339,6 +371,15 @@ func c13Pipeline(c *fw.Ctx, base types.EnvType, r *rand.Rand, pool, fns []c13Ite
 				return
 			}
 			c.Count("pipeline_stages", 1)
+			// purity: no builtin call may have changed a value bound by an earlier stage
+			for _, b := range vals {
+				cur, err := env.Get(types.Symbol{Val: b.name})
+				if err != nil || !canon.Equal(canon.FromGo(cur), b.model) {
+					c.Violate(fw.Violation{Key: name + ":purity:earlier-value-changed", What: fmt.Sprintf("after this call the earlier result %s, which was %s, reads as %s", b.name, canon.Render(b.model), canon.Render(canon.FromGo(cur))), Input: strings.Join(log, "\n")})
+					return
+				}
+			}
+			c.Count("purity_rechecks", len(vals))
 			if !ok || out.K != colmodel.Value {
 				// unspecified or error: this pipeline ends here
 				return
